@@ -80,17 +80,20 @@ def headerDone {P : Type} (ctx : P) (buf : Bytes) (cont : Bool) : IpcState P :=
   else if leVal buf = 0 then ⟨.finished, ctx⟩
   else ⟨.message (leVal buf) [], ctx⟩
 
-/-- `MessageBuffer::try_new(..)?; self.state = DecoderState::Body { message }` -/
-def messageDone {P O : Type} (pr : IpcParams P O) (ctx : P) (md : Bytes) : IpcState P :=
-  match pr.parseMeta md with
-  | none => ⟨.failed .badMeta, ctx⟩
-  | some bl => ⟨.body md bl [], ctx⟩
-
 /-- the body is complete: `match message.header_type() { … }`, then `DecoderState::default()` -/
 def bodyDone {P O : Type} (pr : IpcParams P O) (ctx : P) (md body : Bytes) : IpcState P × List O :=
   match pr.handle ctx md body with
   | .error c => (⟨.failed (.handler c), ctx⟩, [])
   | .ok r => (⟨.header [] false, r.1⟩, r.2)
+
+/-- `MessageBuffer::try_new(..)?; self.state = DecoderState::Body { message }`; a message whose
+`bodyLength` is 0 has its (empty) body already: the loop `while !buffer.is_empty() ||
+self.has_pending_empty_body()` dispatches it at once, without waiting for another byte -/
+def messageDone {P O : Type} (pr : IpcParams P O) (ctx : P) (md : Bytes) : IpcState P × List O :=
+  match pr.parseMeta md with
+  | none => (⟨.failed .badMeta, ctx⟩, [])
+  | some 0 => bodyDone pr ctx md []
+  | some bl => (⟨.body md bl [], ctx⟩, [])
 
 /-- one iteration of the `while !buffer.is_empty()` loop of `StreamDecoder::decode` in a state
 other than `Body` (`buffer` is non-empty) -/
@@ -107,11 +110,12 @@ def ipcIterNoBody {P O : Type} (pr : IpcParams P O) (s : IpcState P) (buffer : B
     if size ≤ buf.length then (⟨.failed .stuck, s.ctx⟩, [], 0) else
     if buf.isEmpty ∧ buffer.length > size then
       -- zero-copy: the metadata is `buffer.slice_with_length(0, len)`
-      (messageDone pr s.ctx ((buffer.drop IPC_MSG_SLICE_START).take size), [], size)
+      ((messageDone pr s.ctx ((buffer.drop IPC_MSG_SLICE_START).take size)).1,
+        (messageDone pr s.ctx ((buffer.drop IPC_MSG_SLICE_START).take size)).2, size)
     else
       let toRead := min buffer.length (size - buf.length)
       let buf' := buf ++ buffer.take toRead
-      if buf'.length = size then (messageDone pr s.ctx buf', [], toRead)
+      if buf'.length = size then ((messageDone pr s.ctx buf').1, (messageDone pr s.ctx buf').2, toRead)
       else (⟨.message size buf', s.ctx⟩, [], toRead)
   | .finished => (⟨.failed .eosData, s.ctx⟩, [], 0)
   | .failed _ => (s, [], 0)
@@ -154,7 +158,7 @@ def ipcStepNoBody {P O : Type} (pr : IpcParams P O) (s : IpcState P) (b : Nat) :
     else (⟨.header (buf ++ [b]) cont, s.ctx⟩, [])
   | .message size buf =>
     if size ≤ buf.length then (⟨.failed .stuck, s.ctx⟩, []) else
-    if (buf ++ [b]).length = size then (messageDone pr s.ctx (buf ++ [b]), [])
+    if (buf ++ [b]).length = size then messageDone pr s.ctx (buf ++ [b])
     else (⟨.message size (buf ++ [b]), s.ctx⟩, [])
   | .finished => (⟨.failed .eosData, s.ctx⟩, [])
   | .failed _ => (s, [])
